@@ -59,7 +59,7 @@ def ensure_driver():
 def export(repo=None, target_dir=None, out_dir=None, nonce='x'):
     """run the exporter over the whole workspace; returns (ok, log)."""
     repo = repo or REPO
-    target_dir = target_dir or os.path.join(CACHE, 'target' if os.path.abspath(repo) == '/repo' else 'target-alt')
+    target_dir = target_dir or default_target_dir(repo)
     os.makedirs(target_dir, exist_ok=True)
     os.makedirs(out_dir, exist_ok=True)
     with open(os.path.join(out_dir, 'ROOT'), 'w') as fh:
@@ -86,12 +86,21 @@ def export(repo=None, target_dir=None, out_dir=None, nonce='x'):
     return r.returncode == 0, r.stderr
 
 
+def default_target_dir(repo):
+    """one warm target directory per analysed tree location: /repo has its own, every scratch tree (RIP_REPO) gets one keyed by its
+    path, so that regressions over several scratch worktrees can export side by side"""
+    repo = os.path.abspath(repo or REPO)
+    if repo == '/repo':
+        return os.path.join(CACHE, 'target')
+    return os.path.join(CACHE, 'target-alt-' + hashlib.sha256(repo.encode()).hexdigest()[:8])
+
+
 def facts_for_current_tree(repo=None, use_cache=True):
     """returns (facts_dir, info dict). Fails closed with CheckError when the tree does not
     build under the driver or a fact file is missing / stale."""
     repo = repo or REPO
     os.makedirs(os.path.join(CACHE, 'facts'), exist_ok=True)
-    lock = open(os.path.join(CACHE, 'lock'), 'w')
+    lock = open(os.path.join(CACHE, 'lock-' + os.path.basename(default_target_dir(repo))), 'w')
     fcntl.flock(lock, fcntl.LOCK_EX)
     try:
         t0 = time.time()
@@ -128,10 +137,10 @@ def facts_for_current_tree(repo=None, use_cache=True):
             raise CheckError('exporter produced no facts for crates: %s' % ', '.join(missing))
         open(marker, 'w').write(json.dumps({'t': time.time()}))
         info['export_s'] = round(time.time() - t0, 1)
-        # keep the ten most recent fact sets
+        # keep the forty most recent fact sets (several regressions may run side by side)
         base = os.path.join(CACHE, 'facts')
         ds = sorted((os.path.getmtime(os.path.join(base, d)), d) for d in os.listdir(base))
-        for _, d in ds[:-10]:
+        for _, d in ds[:-40]:
             shutil.rmtree(os.path.join(base, d), ignore_errors=True)
         return out_dir, info
     finally:
